@@ -260,6 +260,29 @@ pub fn main(args: &util::Args) {
         }
         let _ = std::fs::remove_dir_all(&dir);
     }
+    // C08's capture sites whose loss only shows where the variable is used: the contexts that were
+    // once skipped by a seeded change of `collect_captured` (go operand, match default), nesting 2
+    {
+        let dir = util::scratch_dir("c01s");
+        for cx in ["go-lit", "go-named", "match-default", "enum-default", "str-match-default", "while-body", "dyn-arg"] {
+            for kind in crate::progen::SITE_KINDS.iter() {
+                let mut root = crate::rng::Rng::new(args.seed);
+                let mut rng = root.fork(0x51_7E00 + (cx.len() * 16 + kind.len()) as u64);
+                let Some(src) = crate::progen::capture_site_program(cx, kind, 2, &mut rng) else { continue };
+                let id = format!("site:{}:{}:d2", cx, kind);
+                match util::compile_text(&dir, &src) {
+                    Outcome::Ok(c) => {
+                        writeln!(out, "{}\tEXPECT\tnone\t", id).unwrap();
+                        writeln!(out, "{}\tSRC\t{}", id, crate::sexp::esc_line(&src)).unwrap();
+                        dump_case(&id, &c, &mut out);
+                    }
+                    Outcome::Err(stage, msgs) => writeln!(out, "{}\tREJECT\t{}\t{}\t{}", id, stage, crate::sexp::esc_line(&msgs.join(" | ")), crate::sexp::esc_line(&src)).unwrap(),
+                    Outcome::Panic(m) => writeln!(out, "{}\tPANIC\t{}\t{}", id, crate::sexp::esc_line(&m), crate::sexp::esc_line(&src)).unwrap(),
+                }
+            }
+        }
+        let _ = std::fs::remove_dir_all(&dir);
+    }
     // generated programs (G-prog)
     let total = args.n.unwrap_or(if args.tier == "thorough" { 3000 } else { 300 });
     let dir = util::scratch_dir("c01");
